@@ -76,9 +76,14 @@ var configs = []*Config{
 	// --- thorough only
 	{Name: "len7-b", Tier: "thorough", Events: []string{evLease1, evLease2, evSubA, evSubA2, evClose1, evDClosed, evSubI}, FetchErrs: 1, ThoroughBudgets: "0,0/4"},
 	{Name: "len7-c", Tier: "thorough", Events: []string{evLease1, evLease2, evSubA, evUpdate, evSubB, evClose1, evClose2}, FetchErrs: 2, ThoroughBudgets: "0,0/4"},
-	{Name: "len7-host", Tier: "thorough", Events: []string{evLease1, evSubA, evSubA2, evUpdate, evSubB, evDClosed, evShutdown}, HostAsync: true, HostErrs: 1, FetchErrs: 1, ThoroughBudgets: "0,0/8"},
+	// (measured on 16 idle cores, 16 shards each: the former len7-host - the same menu plus dclosed, one hostname
+	// rejection, one failed query - and watchdog-full - lease1, lease2, subA, subA2, dclosed, shutdown with both
+	// watchdog timers, late hostname answers and a failed query - did not finish (0,0) in 20 and 45 minutes
+	// (> 37M and > 217M states); the menus below are the largest of their kind that are covered COMPLETELY)
+	{Name: "watchdog-2lease-full", Tier: "thorough", First: true, Events: []string{evLease1, evLease2, evSubA, evDClosed, evShutdown}, Watchdog: true, HostAsync: true, ThoroughBudgets: "0,0/16"},
+	{Name: "len6-host", Tier: "thorough", First: true, Events: []string{evLease1, evSubA, evSubA2, evUpdate, evSubB, evShutdown}, HostAsync: true, HostErrs: 1, FetchErrs: 1, ThoroughBudgets: "0,0/16"},
+	{Name: "watchdog-1lease-full", Tier: "thorough", First: true, Events: []string{evLease1, evSubA, evSubA2, evDClosed, evShutdown}, Watchdog: true, HostAsync: true, FetchErrs: 1, ThoroughBudgets: "0,0/16"},
 	{Name: "len8", Tier: "thorough", Events: []string{evLease1, evLease2, evSubA, evSubW, evUpdate, evSubB, evClose1, evShutdown}, FetchErrs: 1, ThoroughBudgets: "0,0/8"},
-	{Name: "watchdog-full", Tier: "thorough", Events: []string{evLease1, evLease2, evSubA, evSubA2, evDClosed, evShutdown}, Watchdog: true, HostAsync: true, FetchErrs: 1, ThoroughBudgets: "0,0/4"},
 }
 
 // The version-protocol family of C10 (checks/C20 c10version): lease won, the deployment query answered by
@@ -506,7 +511,7 @@ func doParent(family, tier string, nworkers int, only, budgetStr string, d time.
 	if d == 0 {
 		d = 110 * time.Second
 		if tier == "thorough" {
-			d = 25 * time.Minute
+			d = 40 * time.Minute
 		}
 		if family == "c10v" {
 			d = 35 * time.Second
@@ -590,6 +595,11 @@ func doParent(family, tier string, nworkers int, only, budgetStr string, d time.
 	}
 	base := func(i int) bool { return strings.HasPrefix(groups[i], "0,0") && shardOf[i][1] == 1 }
 	sort.SliceStable(idx, func(a, b int) bool {
+		// configurations marked First (the big sharded ones) are started before everything else, so that
+		// their long shards do not become the tail of the run
+		if todo[idx[a]].First != todo[idx[b]].First {
+			return todo[idx[a]].First
+		}
 		// the base ladders first (cheap, and the most valuable), then the rest, heaviest first
 		if base(idx[a]) != base(idx[b]) {
 			return base(idx[a])
